@@ -162,6 +162,24 @@ def generate(tier, seed, casedir, variant):
             viol.append({"detail": f"grid nt=49 on [0,1] stores {g.times.shape[0]} points", "case": {"what": "grid49"}})
     except Exception as ex:
         viol.append({"detail": f"grid nt=49 raised {type(ex).__name__}", "case": {"what": "grid49"}})
+    # the 1-D border is exactly the pair of declared end points (end points that binary32 cannot represent included),
+    # in the store and in every batch, for the stationary and the non-stationary generator
+    for (a, b) in [(0.1, 0.9), (-0.3, 1.1), (-2.0, 0.5)]:
+        try:
+            gs = jinns.data.CubicMeshPDEStatio(key=jax.random.PRNGKey(1), n=5, nb=2, omega_batch_size=2, omega_border_batch_size=2, dim=1, min_pts=(a,), max_pts=(b,))
+            gn = jinns.data.CubicMeshPDENonStatio(key=jax.random.PRNGKey(2), n=5, nb=2, nt=4, omega_batch_size=2, omega_border_batch_size=2, temporal_batch_size=2, dim=1,
+                                                  min_pts=(a,), max_pts=(b,), tmin=0.0, tmax=1.0)
+            for nm, g in (("stationary", gs), ("non-stationary", gn)):
+                if np.asarray(g.omega_border).ravel().tolist() != [a, b]:
+                    viol.append({"detail": f"{nm} 1-D border store is {np.asarray(g.omega_border).ravel().tolist()}, declared end points [{a}, {b}]", "case": {"what": "border1d", "a": a, "b": b}})
+                for k in range(3):
+                    g, bt = g.get_batch()
+                    ends = np.asarray(bt.border_batch).ravel().tolist() if nm == "stationary" else sorted(set(np.asarray(bt.times_x_border_batch)[:, 1, :].ravel().tolist()))
+                    if ends != [a, b]:
+                        viol.append({"detail": f"{nm} 1-D border batch {k} holds {ends}, declared end points [{a}, {b}]", "case": {"what": "border1d", "a": a, "b": b}}); break
+            dist["border_1d_end_points"] = dist.get("border_1d_end_points", 0) + 2
+        except Exception as ex:
+            viol.append({"detail": f"1-D border on [{a}, {b}] raised {type(ex).__name__}: {str(ex)[:150]}", "case": {"what": "border1d", "a": a, "b": b}})
     write_cases(casedir, "C08", "R_C08", variant, cases, chunk=60,
                 preamble="Open Scope Q_scope.")
     return dict(meta=metas, oracle_violations=viol, evaluations=len(cases), distinct_nontrivial=N, samples=samples, distribution=dist,
